@@ -347,7 +347,7 @@ def specs_nq(tier):
           ["2q_on", {"core": ["generic"]}, [0, 2]], ["2q_on", {"core": ["CNOT"]}, [2, 0]], ["2q_on", {"core": ["generic"]}, [1, 2]],
           ["2q_on", {"core": ["SWAP"]}, [0, 1]],
           ["generic", 3], ["generic", 2], ["generic", 3, 1.7], ["diag", 3, 0.0], ["diag", 2, 0.4], ["block", 3], ["block", 2],
-          ["perm", [1, 2, 3, 4, 5, 6, 7, 0]], ["perm", [7, 6, 5, 4, 3, 2, 1, 0]], ["perm", [0, 4, 2, 6, 1, 5, 3, 7]], ["perm", [2, 3, 0, 1]],
+          ["perm", [1, 2, 3, 4, 5, 6, 7, 0]], ["perm", [7, 6, 5, 4, 3, 2, 1, 0]], ["perm", [0, 4, 2, 6, 1, 5, 3, 7]],
           ["2q", {"core": ["CNOT"]}], ["2q", {"core": ["SWAP"]}], ["2q", {"core": ["canon", 1e-6, 0.0, 0.0]}],
           ["mcx", 3], ["named", "DoubleExcitation", [0.3]]]
     for p in itertools.permutations(range(4)):
